@@ -41,6 +41,8 @@ func main() {
 		}()
 	}
 	switch os.Args[1] {
+	case "C07":
+		c07CloneMain()
 	case "C08":
 		c08Main()
 	case "C10":
@@ -48,6 +50,9 @@ func main() {
 	case "C20":
 		if len(os.Args) > 3 && os.Args[3] == "db" {
 			c20dbMain()
+		}
+		if len(os.Args) > 3 && os.Args[3] == "chain" {
+			c20chainMain()
 		}
 		c20Main()
 	case "C25":
